@@ -39,7 +39,15 @@ def rand_len(r):
     return r.choice([0, 0, 1, 1, 2, 3, 5, 8, 13, 30, 60, 126, 127, 128, 129, 300])
 
 
+def rand_large(r):
+    """a size between 256 and 5792 octets, log-uniform (thresholds such as "longer than 1000 / 3000 octets" are met
+    from both sides; beyond the default table size the entry does not fit)"""
+    return int(2 ** r.uniform(8, 12.5))
+
+
 def rand_name(r):
+    if r.random() < 0.012:
+        return rand_bytes(r, rand_large(r), "ascii")
     k = r.random()
     if k < 0.35:
         return r.choice(STATIC_NAMES)
@@ -51,6 +59,8 @@ def rand_name(r):
 
 
 def rand_value(r, name=None):
+    if r.random() < 0.02:
+        return rand_bytes(r, rand_large(r), "ascii")
     k = r.random()
     if k < 0.25:
         return b""
@@ -701,7 +711,7 @@ def gen_pair(r, k, shared_pool=None):
             if bi > 0 and blocks and r.random() < 0.3:
                 fields = list(blocks[r.randrange(len(blocks))]["fields"])       # repeat an earlier block
                 tags.append("repeated-block")
-            if any(len(v) > 2000 or len(n) > 2000 for n, v, _ in fields):
+            if any(len(v) > 700 or len(n) > 700 for n, v, _ in fields):
                 huff = False        # the reference decoder of the Spec is slow on huge Huffman strings
             blocks.append({"sets": sets, "fields": fields, "huff": huff})
             cmds.append("eenc %s %d %s" % (e, 1 if huff else 0,
